@@ -23,6 +23,8 @@ from sa import report  # noqa: E402
 
 def _apply(repo, v):
     """Return overrides dict or None if the variant does not apply."""
+    if "overrides" in v:
+        return v["overrides"]
     overrides = {}
     edits = v.get("edits") or [(v["file"], v["old"], v["new"])]
     for rel, old, new in edits:
@@ -79,9 +81,53 @@ def run_variant(args):
         return v["id"], "fail", "crash: " + traceback.format_exc().splitlines()[-1]
 
 
+def _seeded_variants(prop, repo):
+    """Seeded sub-agent changes of this property as in-memory variants: the patch is applied to a scratch
+    copy of the touched files (under a temporary directory outside /repo and /verif, removed at once) and
+    the patched texts become Project overrides.  A patch that no longer applies is skipped."""
+    import json, shutil, subprocess, tempfile
+    sdir = os.path.join(HERE, "seeded")
+    try:
+        expected = json.load(open(os.path.join(sdir, "EXPECTED.json")))
+    except Exception:
+        return []
+    out = []
+    for sid, exp in sorted(expected.items()):
+        d = os.path.join(sdir, sid)
+        try:
+            meta = json.load(open(os.path.join(d, "meta.json")))
+        except Exception:
+            continue
+        if meta.get("property") != prop:
+            continue
+        patch = os.path.join(d, "patch.diff")
+        files = sorted({l[6:].strip() for l in open(patch) if l.startswith("+++ b/")})
+        tmp = tempfile.mkdtemp(prefix="verif_seed_")
+        try:
+            ok = True
+            for rel in files:
+                src = os.path.join(repo, rel)
+                if not os.path.exists(src):
+                    ok = False
+                    break
+                os.makedirs(os.path.dirname(os.path.join(tmp, rel)), exist_ok=True)
+                shutil.copy(src, os.path.join(tmp, rel))
+            if ok:
+                r = subprocess.run(["patch", "-p1", "-s", "-f", "-d", tmp, "-i", patch], capture_output=True, text=True)
+                ok = r.returncode == 0
+            if not ok:
+                out.append(dict(prop=prop, id="seeded/" + sid, overrides=None, expect=exp))
+                continue
+            ov = {rel: open(os.path.join(tmp, rel), encoding="utf8").read() for rel in files}
+            out.append(dict(prop=prop, id="seeded/" + sid, overrides=ov, expect=("UNDECIDED" if exp == "UNDECIDED" else prop + ".R")))
+        finally:
+            shutil.rmtree(tmp, ignore_errors=True)
+    return out
+
+
 def run_for_property(prop, repo="/repo", seed=0, jobs=None):
     from selftest.variants import VARIANTS
-    vs = [v for v in VARIANTS if v["prop"] == prop]
+    vs = [v for v in VARIANTS if v["prop"] == prop] + _seeded_variants(prop, repo)
     if seed:
         import random
         random.Random(seed).shuffle(vs)
